@@ -128,4 +128,7 @@ def run(ctx):
                 cell_dm.append(i)
     ctx.check(len(cell_dm) == 1 and cell_dm[0]["self_head"]["adt"].endswith("keep_alive::Parent"), "R06.4", MQ + "#only-owner-derefs-mut-to-cell", "",
               "mutable access to the shared cell is offered by %s" % [i["self_ty"] for i in cell_dm])
+    # compile-fail witnesses (type-level part of the property), discharged by rustc's type checker
+    from mq import witness as _w
+    _w.report_cf(ctx, "W06", _w.run_witness(), "C06")
     return EXPL
